@@ -79,6 +79,8 @@ def generate(seed, tier="quick"):
         nbm = rnd.choice([1, 2, 3, nt - 1 if nt > 1 else 1, nt, nt + 1, nt + rnd.randint(2, 20), rnd.randint(1, max(1, nt))])
         ops.append({"id": oid, "op": "helper_batch_tasks", "n_tasks": nt, "n_batches": nbm, "start_idx": rnd.choice([0, 0, 1, 2, 5, rnd.randint(0, 50)]), "with_arr": rnd.random() < 0.5,
                     "arr_dtype": rnd.choice([None, None, ">i8", "<i4", ">i4", "<u4", "<f8"]),
+                    # the array may be longer than start_idx + n_tasks: only that window of it is to be handed out
+                    "arr_extra": rnd.choice([0, 0, 1, 7, rnd.randint(1, 60)]),
                     "args": rnd.choice([None, ["x"], ["x", 3]]), "role": "direct"})
         oid += 1
     # history: the same (n_tasks, n_batches) asked again with another start index, then from 0 again
